@@ -207,6 +207,27 @@ func firstLines(s string, n int) string {
 	return strings.Join(l, "\n        ")
 }
 
+// KnownKeysOf returns the keys of the known (unrepaired) findings recorded for another property.
+func KnownKeysOf(prop string) []string {
+	b, err := os.ReadFile(filepath.Join(VerifDir(), "known_findings.json"))
+	if err != nil {
+		return nil
+	}
+	var f struct {
+		Findings []Finding `json:"findings"`
+	}
+	if json.Unmarshal(b, &f) != nil {
+		return nil
+	}
+	var out []string
+	for _, x := range f.Findings {
+		if x.Property == prop && x.Status == "known" {
+			out = append(out, x.Key)
+		}
+	}
+	return out
+}
+
 // KnownKeys returns the keys of the known findings of this property.
 func (c *Ctx) KnownKeys() []string {
 	var out []string
